@@ -184,7 +184,7 @@ def depth_skip_edges(cb):
     from common import edges_where
 
     def from_target(v):
-        v = noref(v)
+        v = noref(b.trace(noref(v), ('NonZero::get',)))
         return v.kind == 'arg' and v.key == cb.p_target_depth
 
     def from_depth(v):
@@ -256,11 +256,20 @@ def r4_expand_or_sanctioned(ctx, cb):
         budget = []
         for sw in b.switches:
             on = sw.on
-            if on.kind == 'bin' and on.key[0] in ('Eq', 'Le', 'Lt'):
+            if on.kind == 'bin' and on.key[0] in ('Eq', 'Le', 'Lt', 'Ne', 'Gt', 'Ge'):
                 ops = [noref(x) for x in on.key[1:]]
                 if any(o.kind in ('arg', 'local') and o.key == cb.p_max_count and not o.projs for o in ops):
                     budget.append(sw)
         ok = any(b.dominates(sw.bb, cb.deq.bb) and sw.bb != cb.deq.bb for sw in budget)
+        if not ok:
+            # `for _ in 0..max_count`: the dequeue sits in the body of a loop over a range that ends at the budget
+            for c in b.calls_to('Iterator::next'):
+                src = noref(b.trace(b.val(c.args[0]), ('IntoIterator::into_iter',)))
+                if src.kind == 'agg' and 'Range' in str(src.key[1]) and \
+                        any(noref(o).kind == 'arg' and noref(o).key == cb.p_max_count for o in src.key[3]):
+                    se = b.branch(c, 'Some')
+                    if se and b.edges_dominate(se, cb.deq.bb):
+                        ok = True
         ctx.check(ok, rule, 'budget-test-before-dequeue', b,
                   good='the block budget is tested before a job is dequeued',
                   bad='%s: no test of the block budget dominates the dequeue: when the budget runs out '
